@@ -364,6 +364,31 @@ pub fn ascii_words() -> BoxedStrategy<String> {
         .boxed()
 }
 
+/// labels made of 1..12 contextual CLUSTERS (satisfied and unsatisfied patterns of every RFC 5892 rule, members of the families the
+/// whole-label rules look for) separated by fillers of 0..300 valid characters of 1..4 bytes: several rules, several occurrences, far apart
+pub fn clustered_labels() -> BoxedStrategy<String> {
+    const CLUSTERS: [&str; 30] = [
+        "l\u{b7}l", "\u{915}\u{94d}\u{200d}", "\u{915}\u{94d}\u{200c}", "\u{628}\u{200c}\u{628}", "\u{628}\u{651}\u{200c}\u{651}\u{628}", "\u{375}\u{3b1}", "\u{5d0}\u{5f3}", "\u{5d0}\u{5f4}",
+        "\u{30fb}", "\u{30fb}\u{30fb}", "\u{3042}", "\u{30a2}", "\u{6f22}", "\u{660}", "\u{661}\u{669}", "\u{6f0}", "\u{6f5}\u{6f9}", "\u{1b13}\u{1b44}\u{200c}\u{1b13}", "\u{6cc}\u{6f1}", "\u{644}\u{661}",
+        // unsatisfied / invalid
+        "a\u{b7}l", "l\u{b7}", "a\u{200d}", "a\u{200c}", "\u{375}a", "a\u{5f3}", "\u{0}", "\u{2126}", "\u{378}", "L\u{b7}l",
+    ];
+    let filler = prop_oneof![4 => Just(0usize), 2 => 1usize..4, 2 => 4usize..40, 1 => 120usize..140, 1 => 250usize..300];
+    let unit = prop_oneof![3 => Just('a'), 1 => Just('\u{e9}'), 1 => Just('\u{4e00}'), 1 => Just('\u{10428}')];
+    vec((prop_oneof![4 => 0usize..20, 1 => 20usize..30], filler, unit), 1..12)
+        .prop_map(|parts| {
+            let mut s = String::new();
+            for (c, n, u) in parts {
+                s.push_str(CLUSTERS[c]);
+                for _ in 0..n {
+                    s.push(u);
+                }
+            }
+            s
+        })
+        .boxed()
+}
+
 /// text over ALL of ASCII (0x00..0x7F, weighted to printable characters and to the numeric neighbours of U+0020: U+001F, U+0021), words of
 /// 1..24 characters separated by gaps of 1, 2..3 or 4..40 spaces (one gap in six contains a non-ASCII space), up to ~600 bytes
 pub fn ascii_text() -> BoxedStrategy<String> {
